@@ -12,6 +12,7 @@ import GunYu.Proofs.SenderRun
 import GunYu.Proofs.TargetSeq
 import GunYu.Proofs.Parser
 import GunYu.Proofs.EndToEnd
+import GunYu.Proofs.Restart
 
 namespace GunYu.Props.C01
 open GunYu GunYu.Sender GunYu.Target
@@ -285,6 +286,20 @@ theorem parser_keeps_order (c : PCfg) (raws : List Raw) (s : PState)
     ((parseAll c s raws).map (·.offset)).Pairwise (· ≤ ·) ∧
     ∀ i ∈ parseAll c s raws, s.lastSent ≤ i.offset :=
   parseAll_offsets_mono c raws s hraw hlo
+
+/-- **The parser's database tag is the connection's database.** Whatever the
+    stream and configuration, every item the parser hands over (other than a
+    forwarded `select`) is tagged with the database the target connection is in
+    when that item executes, or with −1 (a fresh / resumed parser that has not
+    read a SELECT yet): eliding a `select` whose mapped database equals
+    `currentDB` is therefore sound. -/
+theorem parser_db_is_conn_db (c : PCfg) (raws : List Raw) (s : PState) (cur : Int)
+    (hinv : s.currentDB = cur ∨ s.currentDB = -1)
+    (hsel : ∀ r ∈ raws, r.cmd = bSelect → ∀ a n, r.args = [a] → atoi? a = some n → 0 ≤ n)
+    (pre post : List Item) (i : Item)
+    (h : parseAll c s raws = pre ++ i :: post) (hs : i.cmd ≠ bSelect) :
+    i.db = -1 ∨ i.db = (seqApplied cur (itemCmds pre)).1 :=
+  Sender.parser_db_is_conn_db c raws s cur hinv hsel pre post i h hs
 
 /-! ### End to end: refinement to the one-pass specification `specStream` -/
 
